@@ -263,6 +263,14 @@ fn differential(ctx: &mut Ctx, rng: &mut Rng, pairs: u64) {
                     v.sort();
                     format!("{:?}", v)
                 }
+                Op::IterAdvance { ns } => {
+                    // which item an iterator yields first depends on the table layout, which
+                    // initial_capacity may change: advance first, then iterate
+                    c.advance(ns);
+                    let mut v = c.iter();
+                    v.sort();
+                    format!("{:?}", v)
+                }
                 Op::Invalidate { k } => {
                     c.invalidate(k);
                     String::new()
